@@ -237,9 +237,12 @@ def multiprocessing_run(
     cases_to_skip = list()
     if study_restart:
         for run_dir in os.listdir(dir_to_use):
-            if '_run_' in run_dir:
-                run_num = int(run_dir.split('_run_')[-1])
             run_path = os.path.join(dir_to_use, run_dir)
+            # Only the directories of individual runs ("index_<index>_run_<number>") are of interest. Other entries, such
+            #  as the saved input arrays (an input may itself be called "<something>_run_<something>"), are skipped.
+            if '_run_' not in run_dir or not os.path.isdir(run_path):
+                continue
+            run_num = int(run_dir.split('_run_')[-1])
             # There is a directory. Did the run complete successfully?
             success_file_path = os.path.join(run_path, 'mp_success.log')
             if not os.path.isfile(success_file_path):
